@@ -1412,8 +1412,8 @@ func init() {
 		if !ok {
 			reflectPanic("reflect.MakeSlice of non-slice type")
 		}
-		n := e.concreteInt(a[1], 0, 1<<40)
-		c := e.concreteInt(a[2], 0, 1<<40)
+		n := e.concreteSize(a[1])
+		c := e.concreteSize(a[2])
 		if n < 0 {
 			reflectPanic("reflect.MakeSlice: negative len")
 		}
@@ -1458,7 +1458,7 @@ func init() {
 		if ct.Dir() != types.SendRecv {
 			reflectPanic("reflect.MakeChan: unidirectional channel type")
 		}
-		n := e.concreteInt(a[1], 0, 1<<40)
+		n := e.concreteSize(a[1])
 		if n < 0 {
 			reflectPanic("reflect.MakeChan: negative buffer size")
 		}
